@@ -3,7 +3,7 @@
    coincide with the hand-written model Automaton.v.  `&State` values are the state records; the
    model's a_str_next walks state indices, the code walks state references: the two agree on
    well-formed automata (aut_wf: every successor index is in range). *)
-Require Import Base GenBase CharSet Partition Automaton AutomatonProofs.
+Require Import Base GenBase CharSet Partition PartitionSpec PartitionProofs MergeProofs Automaton AutomatonProofs.
 From SVG Require Import AutomatonGen.
 Require Import ZifyBool ZifyN ZifyNat.
 Open Scope N_scope.
@@ -13,21 +13,150 @@ Definition convp (p : CharPartition) : part :=
   {| ivs := map conv (CharPartition_list p); wit := CharPartition_comp_witness p |}.
 Definition convc (c : ClassId) : classid :=
   match c with ClassId_Interval i => CInt i | ClassId_Complement => CComp end.
-Definition convst (s : State) : astate :=
-  {| a_id := State_id s; a_final := State_is_final s; a_classes := convp (State_classes s);
-     a_succ := State_successor s; a_default := State_default_successor s |}.
-Definition conva (a : Automaton) : automaton :=
-  {| num_states := Automaton_num_states a; num_final := Automaton_num_final_states a;
-     initial := Automaton_initial_state a; astates := map convst (Automaton_states a) |}.
+Definition convr (c : CoverResult) : cover :=
+  match c with CoverResult_CoveredBy i => CoveredBy i | CoverResult_DisjointFromAll => DisjointFromAll
+             | CoverResult_Overlaps => Overlaps end.
 
-(* ---- element functions, class_of_char (as in GenLinkPartition.v) ---- *)
+Lemma conv_inj s o : conv s = conv o -> s = o.
+Proof. destruct s as [a b], o as [c d]. cbv [conv CharSet_start CharSet_end]. congruence. Qed.
+
+Ltac gunfold :=
+  autounfold with rs2v in *;
+  cbv [conv convp convc convr option_map bind fst snd CharSet_start CharSet_end
+       CharPartition_list CharPartition_comp_witness ivs wit
+       u32_add u32_mul u32_sub U32MAX usize_add usize_sub usize_div
+       cs_contains cs_is_before pnew plen pfrom_set ppush pget pstart pend pinterval ppick_iv
+       pempty_complement ppick_complement pvalid pnum_classes ppick SENT MAXC
+       orb andb negb] in *.
+
+Ltac gcases :=
+  repeat match goal with
+         | |- context [match ?x with _ => _ end] =>
+             lazymatch x with
+             | context [match _ with _ => _ end] => fail
+             | _ => first [ is_var x; destruct x | destruct x eqn:? ]
+             end
+         end.
+
+Ltac gbools :=
+  repeat match goal with
+         | |- context [N.leb ?a ?b] => destruct (N.leb a b) eqn:?
+         | |- context [N.ltb ?a ?b] => destruct (N.ltb a b) eqn:?
+         | |- context [N.eqb ?a ?b] => destruct (N.eqb a b) eqn:?
+         | |- context [Nat.leb ?a ?b] => destruct (Nat.leb a b) eqn:?
+         | |- context [Nat.ltb ?a ?b] => destruct (Nat.ltb a b) eqn:?
+         | |- context [Nat.eqb ?a ?b] => destruct (Nat.eqb a b) eqn:?
+         end.
+
+Ltac ctor_eq :=
+  repeat match goal with
+         | |- ?x = ?x => reflexivity
+         | |- @eq N _ _ => lia
+         | |- @eq nat _ _ => lia
+         | |- ?f ?a = ?f ?b => apply (f_equal f)
+         | |- ?f ?a ?c = ?f ?b ?d => apply (f_equal2 f)
+         end.
+
+Ltac gfinish :=
+  first [ reflexivity | congruence | (exfalso; lia) | solve [ctor_eq] ].
+
+Ltac glink := intros; gunfold; gcases; gbools; gfinish.
+
+(* ---- the element functions used by the searches ---- *)
 Lemma link_cs_contains s x : M_CharSet_contains s x = Some (cs_contains (conv s) x).
-Proof. destruct s. reflexivity. Qed.
+Proof. destruct s. glink. Qed.
 Lemma link_cs_is_before s x : M_CharSet_is_before s x = Some (cs_is_before (conv s) x).
-Proof. destruct s. reflexivity. Qed.
+Proof. destruct s. glink. Qed.
+
+(* ---- constructors ---- *)
+Lemma link_new : option_map convp M_CharPartition_new = Some pnew.
+Proof. reflexivity. Qed.
+
+
+Lemma link_push p a b : b <= MAX_CHAR ->
+  option_map convp (M_CharPartition_push p a b) = Some (ppush (convp p) a b).
+Proof.
+  destruct p as [l w]. intros Hb. gunfold.
+  destruct (a <=? w) eqn:E.
+  - destruct (b + 1 <=? 4294967295) eqn:E2; [|exfalso; lia].
+    gunfold. rewrite map_app. reflexivity.
+  - gunfold. rewrite map_app. reflexivity.
+Qed.
+
+(* ---- accessors ---- *)
+
 Lemma nth_error_map_conv l i : nth_error (map conv l) i = option_map conv (nth_error l i).
 Proof. revert i; induction l as [|x l IH]; intros [|i]; cbn; auto. Qed.
 
+Lemma nth_conv l i : nth i (map conv l) (SENT, SENT) =
+  match nth_error l i with Some s => conv s | None => (SENT, SENT) end.
+Proof. revert i; induction l as [|x l IH]; intros [|i]; cbn; auto. Qed.
+
+Lemma nth_error_lt {A} (l : list A) i : Nat.ltb i (length l) = true -> exists x, nth_error l i = Some x.
+Proof.
+  intros H. apply Nat.ltb_lt in H. destruct (nth_error l i) eqn:E; [eauto|].
+  apply nth_error_None in E. lia.
+Qed.
+Lemma nth_error_ge {A} (l : list A) i : Nat.ltb i (length l) = false -> nth_error l i = None.
+Proof. intros H. apply Nat.ltb_ge in H. apply nth_error_None. exact H. Qed.
+
+(* generic proof of the accessor links: unfold, express the model's nth / nth_error on the mapped list
+   by nth_error on the list, case analysis innermost first, then arithmetic with the length facts *)
+Ltac nth_facts :=
+  repeat match goal with
+         | H : nth_error ?l ?i = Some _ |- _ =>
+             lazymatch goal with
+             | _ : (i < length l)%nat |- _ => fail
+             | _ => assert (i < length l)%nat by (apply nth_error_Some; rewrite H; discriminate)
+             end
+         | H : nth_error ?l ?i = None |- _ =>
+             lazymatch goal with
+             | _ : (length l <= i)%nat |- _ => fail
+             | _ => assert (length l <= i)%nat by (apply nth_error_None; exact H)
+             end
+         end.
+Ltac glist :=
+  intros;
+  repeat match goal with p : CharPartition |- _ => destruct p as [? ?] end;
+  repeat match goal with c : ClassId |- _ => destruct c end;
+  gunfold; rewrite ?nth_conv, ?nth_error_map_conv, ?map_length; gunfold;
+  repeat (match goal with
+          | |- context [match ?x with _ => _ end] =>
+              lazymatch x with
+              | context [match _ with _ => _ end] => fail
+              | _ => first [ is_var x; destruct x | destruct x eqn:? ]
+              end
+          end; gunfold);
+  gbools; nth_facts; cbn [length] in *;
+  first [ reflexivity | congruence | (exfalso; lia) | solve [ctor_eq] ].
+
+Lemma link_len p : M_CharPartition_len p = Some (plen (convp p)).
+Proof. glist. Qed.
+
+
+Lemma link_get p i : M_CharPartition_get p i = Some (pget (convp p) i).
+Proof. glist. Qed.
+
+
+Lemma link_start p i : M_CharPartition_start p i = Some (pstart (convp p) i).
+Proof. glist. Qed.
+
+Lemma link_end p i : M_CharPartition_end p i = Some (pend (convp p) i).
+Proof. glist. Qed.
+
+
+Lemma link_empty_complement p : M_CharPartition_empty_complement p = Some (pempty_complement (convp p)).
+Proof. glist. Qed.
+
+
+Lemma link_valid_class_id p c : M_CharPartition_valid_class_id p c = Some (pvalid (convp p) (convc c)).
+Proof. glist. Qed.
+
+
+
+(* ---- loops: one step = rewrite a call of a translated function by its link lemma, or case
+   analysis on the innermost scrutinee; leaves are closed by reflexivity, arithmetic contradiction or
+   the induction hypothesis ---- *)
 Ltac lnorm := cbv [bind option_map cs_contains cs_is_before]; cbn [fst snd conv CharSet_start CharSet_end].
 Ltac Zify.zify_post_hook ::= Z.div_mod_to_equations.
 Ltac lstep :=
@@ -50,6 +179,7 @@ Ltac lleaf IH :=
   first [ reflexivity | discriminate | (exfalso; lia) | congruence
         | (rewrite IH; first [ reflexivity | (f_equal; lia) ]) | (f_equal; lia) ].
 
+(* ---- class_of_char: the binary search, same fuel on both sides ---- *)
 Definition char_res (r : option (loopres ClassId (nat * nat))) : option classid :=
   match r with
   | Some (LoopReturn c) => Some (convc c)
@@ -66,6 +196,190 @@ Proof.
   repeat lstep; lleaf IH.
 Qed.
 
+Lemma link_class_of_char p x :
+  option_map convc (M_CharPartition_class_of_char (S (length (CharPartition_list p))) p x)
+  = pclass_of_char (convp p) x.
+Proof.
+  destruct p as [l w]. autounfold with rs2v. unfold pclass_of_char, convp, plen, ivs, CharPartition_list.
+  rewrite map_length, <- link_bs_char. unfold bind.
+  destruct (CharPartition_class_of_char_binary_search_loop1 _ l x 0 (length l)) as [[c|[a b]]|]; reflexivity.
+Qed.
+
+(* ---- interval_cover ---- *)
+Definition cover_res (r : option (loopres nat (nat * nat))) : option nat :=
+  match r with
+  | Some (LoopReturn i) => Some i
+  | Some (LoopDone (i, _)) => Some i
+  | None => None
+  end.
+
+Lemma link_bs_cover fuel l x i j :
+  cover_res (CharPartition_interval_cover_binary_search_loop1 fuel l x i j) = bs_cover fuel (map conv l) x i j.
+Proof.
+  revert i j; induction fuel as [|fuel IH]; intros i j; [reflexivity|].
+  cbn [CharPartition_interval_cover_binary_search_loop1 bs_cover].
+  replace (i + 1)%nat with (S i) by lia.
+  cbv [usize_sub usize_div usize_add]. lnorm.
+  repeat lstep; lleaf IH.
+Qed.
+
+Lemma link_interval_cover p s :
+  option_map convr (M_CharPartition_interval_cover (S (length (CharPartition_list p))) p s)
+  = pinterval_cover (convp p) (conv s).
+Proof.
+  pose proof (link_get p) as G. pose proof (link_start p) as S1.
+  unfold M_CharPartition_interval_cover, CharPartition_interval_cover, M_CharPartition_interval_cover_binary_search,
+    CharPartition_interval_cover_binary_search, pinterval_cover.
+  pose proof (link_bs_cover (S (length (CharPartition_list p))) (CharPartition_list p) (CharSet_start s) 0
+                            (length (CharPartition_list p))) as H.
+  replace (plen (convp p)) with (length (CharPartition_list p)) by (destruct p; cbn; rewrite map_length; reflexivity).
+  change (ivs (convp p)) with (map conv (CharPartition_list p)).
+  change (fst (conv s)) with (CharSet_start s). change (snd (conv s)) with (CharSet_end s).
+  rewrite <- H. unfold bind at 1 3.
+  destruct (CharPartition_interval_cover_binary_search_loop1 _ _ _ _ _) as [[i|[i j]]|]; cbn [cover_res]; try reflexivity.
+  all: cbn [bind]; rewrite G; unfold bind;
+    destruct (pget (convp p) i) as [ai bi]; cbn [fst snd];
+    rewrite S1;
+    replace (i + 1)%nat with (S i) by lia;
+    destruct (CharSet_start s <? ai), (CharSet_end s <? ai), (CharSet_start s <=? bi), (CharSet_end s <=? bi),
+             (CharSet_end s <? pstart (convp p) (S i)); reflexivity.
+Qed.
+
+Definition convres (r : result ClassId Error) : option classid :=
+  match r with Ok c => Some (convc c) | Err _ => None end.
+
+Lemma link_class_of_set p s :
+  option_map convres (M_CharPartition_class_of_set (S (length (CharPartition_list p))) p s)
+  = pclass_of_set (convp p) (conv s).
+Proof.
+  unfold M_CharPartition_class_of_set, CharPartition_class_of_set, pclass_of_set.
+  rewrite <- link_interval_cover. unfold bind.
+  destruct (M_CharPartition_interval_cover _ p s) as [[i| |]|]; reflexivity.
+Qed.
+
+(* an Err result is always AmbiguousCharSet *)
+Lemma link_class_of_set_err fuel p s e :
+  M_CharPartition_class_of_set fuel p s = Some (Err e) -> e = Error_AmbiguousCharSet.
+Proof.
+  unfold M_CharPartition_class_of_set, CharPartition_class_of_set, bind.
+  destruct (M_CharPartition_interval_cover fuel p s) as [[i| |]|]; congruence.
+Qed.
+
+
+(* ---- merge_partitions: the two-pointer sweep, same fuel on both sides ---- *)
+Definition bounded (p : CharPartition) : Prop :=
+  Forall (fun s => CharSet_start s <= MAX_CHAR /\ CharSet_end s <= MAX_CHAR) (CharPartition_list p).
+
+Lemma pget_bounded p i : bounded p -> fst (pget (convp p) i) <= SENT /\ snd (pget (convp p) i) <= SENT.
+Proof.
+  intros Hb. unfold pget, convp, ivs. rewrite nth_conv.
+  destruct (nth_error (CharPartition_list p) i) as [s|] eqn:E.
+  - apply nth_error_In in E. unfold bounded in Hb. rewrite Forall_forall in Hb.
+    destruct (Hb s E) as [H1 H2]. unfold conv, SENT, MAXC, MAX_CHAR in *. cbn [fst snd]. lia.
+  - cbn [fst snd]. lia.
+Qed.
+
+Lemma link_next_interval p i :
+  M_fn_merge_partitions_next_interval p i = Some (S i, fst (pget (convp p) i), snd (pget (convp p) i)).
+Proof.
+  unfold M_fn_merge_partitions_next_interval, fn_merge_partitions_next_interval. pose proof (link_get p i) as G.
+  rewrite G. unfold bind. destruct (pget (convp p) i) as [x y]. cbn [fst snd].
+  replace (i + 1)%nat with (S i) by lia. reflexivity.
+Qed.
+
+Lemma push_some res a b : b <= MAX_CHAR ->
+  exists res', M_CharPartition_push res a b = Some res' /\ convp res' = ppush (convp res) a b.
+Proof.
+  intros Hb. pose proof (link_push res a b Hb) as H.
+  destruct (M_CharPartition_push res a b) as [r|]; [|discriminate H].
+  exists r. split; [reflexivity|]. cbn [option_map] in H. congruence.
+Qed.
+
+Definition merge_res (r : option (loopres CharPartition ((nat * N * N) * (nat * N * N) * CharPartition))) : option part :=
+  match r with
+  | Some (LoopReturn q) => Some (convp q)
+  | Some (LoopDone (_, _, q)) => Some (convp q)
+  | None => None
+  end.
+
+Lemma link_merge_loop fuel p1 p2 : bounded p1 -> bounded p2 ->
+  forall res i a b j c d, a <= SENT -> b <= SENT -> c <= SENT -> d <= SENT ->
+  merge_res (fn_merge_partitions_loop1 fuel p1 p2 (i, a, b) (j, c, d) res)
+  = merge_loop fuel (convp p1) (convp p2) i a b j c d (convp res).
+Proof.
+  intros B1 B2. induction fuel as [|fuel IH]; intros res i a b j c d Ha Hb Hc Hd; [reflexivity|].
+  cbn [fn_merge_partitions_loop1 merge_loop snd].
+  change MAX_CHAR with MAXC.
+  (* the loop guard, in whatever form the source writes it *)
+  match goal with
+  | |- merge_res (if ?g then _ else _) = _ =>
+      replace g with ((b <=? MAXC) || (d <=? MAXC)) by (unfold MAXC; gbools; cbn [negb andb orb]; first [reflexivity | (exfalso; lia)])
+  end.
+  destruct ((b <=? MAXC) || (d <=? MAXC)) eqn:Econd; cbn [negb]; [|reflexivity].
+  pose proof (pget_bounded p1 i B1) as [G1a G1b]. pose proof (pget_bounded p2 j B2) as [G2a G2b].
+  unfold SENT, MAXC in *.
+  destruct (b <? c) eqn:E1.
+  { destruct (push_some res a b) as [r [Hr Er]]; [unfold MAX_CHAR; lia|].
+    rewrite Hr. unfold bind at 1. rewrite link_next_interval. unfold bind at 1.
+    destruct (pget (convp p1) i) as [x y] eqn:Eg. cbn [fst snd] in *.
+    rewrite IH by lia. rewrite Er. reflexivity. }
+  destruct (d <? a) eqn:E2.
+  { destruct (push_some res c d) as [r [Hr Er]]; [unfold MAX_CHAR; lia|].
+    rewrite Hr. unfold bind at 1. rewrite link_next_interval. unfold bind at 1.
+    destruct (pget (convp p2) j) as [x y] eqn:Eg. cbn [fst snd] in *.
+    rewrite IH by lia. rewrite Er. reflexivity. }
+  destruct (c <? a) eqn:E3.
+  { unfold u32_sub. destruct (1 <=? a) eqn:E1a; [|exfalso; lia]. unfold bind at 1.
+    destruct (push_some res c (a - 1)) as [r [Hr Er]]; [unfold MAX_CHAR; lia|].
+    rewrite Hr. unfold bind at 1. cbn [fst snd].
+    rewrite IH by lia. rewrite Er. reflexivity. }
+  destruct (a <? c) eqn:E4.
+  { unfold u32_sub. destruct (1 <=? c) eqn:E1c; [|exfalso; lia]. unfold bind at 1.
+    destruct (push_some res a (c - 1)) as [r [Hr Er]]; [unfold MAX_CHAR; lia|].
+    rewrite Hr. unfold bind at 1. cbn [fst snd].
+    rewrite IH by lia. rewrite Er. reflexivity. }
+  destruct (b <? d) eqn:E5.
+  { destruct (push_some res a b) as [r [Hr Er]]; [unfold MAX_CHAR; lia|].
+    rewrite Hr. unfold bind at 1. rewrite link_next_interval. unfold bind at 1.
+    unfold u32_add, U32MAX. destruct (b + 1 <=? 4294967295) eqn:E6; [|exfalso; lia]. unfold bind at 1.
+    destruct (pget (convp p1) i) as [x y] eqn:Eg. cbn [fst snd] in *.
+    rewrite IH by lia. rewrite Er. reflexivity. }
+  destruct (d <? b) eqn:E6.
+  { destruct (push_some res c d) as [r [Hr Er]]; [unfold MAX_CHAR; lia|].
+    rewrite Hr. unfold bind at 1.
+    unfold u32_add, U32MAX. destruct (d + 1 <=? 4294967295) eqn:E7; [|exfalso; lia]. unfold bind at 1.
+    rewrite link_next_interval. unfold bind at 1.
+    destruct (pget (convp p2) j) as [x y] eqn:Eg. cbn [fst snd] in *.
+    rewrite IH by lia. rewrite Er. reflexivity. }
+  destruct (push_some res a b) as [r [Hr Er]]; [unfold MAX_CHAR; lia|].
+  rewrite Hr. unfold bind at 1. rewrite link_next_interval. unfold bind at 1.
+  rewrite link_next_interval. unfold bind at 1.
+  destruct (pget (convp p1) i) as [x y] eqn:Eg. destruct (pget (convp p2) j) as [x' y'] eqn:Eg'. cbn [fst snd] in *.
+  rewrite IH by lia. rewrite Er. reflexivity.
+Qed.
+
+Lemma link_merge_partitions p1 p2 : bounded p1 -> bounded p2 ->
+  option_map convp (M_fn_merge_partitions (merge_fuel (convp p1) (convp p2)) p1 p2)
+  = pmerge_opt (convp p1) (convp p2).
+Proof.
+  intros B1 B2. unfold M_fn_merge_partitions, fn_merge_partitions, pmerge_opt.
+  rewrite !link_next_interval. unfold bind at 1 2.
+  change M_CharPartition_new with (Some CharPartition_new). unfold bind at 1.
+  pose proof (pget_bounded p1 0 B1) as [G1a G1b]. pose proof (pget_bounded p2 0 B2) as [G2a G2b].
+  destruct (pget (convp p1) 0) as [a b] eqn:E1. destruct (pget (convp p2) 0) as [c d] eqn:E2. cbn [fst snd] in *.
+  rewrite <- (link_merge_loop _ p1 p2 B1 B2 CharPartition_new 1%nat a b 1%nat c d) by assumption.
+  unfold bind.
+  destruct (fn_merge_partitions_loop1 _ p1 p2 (1%nat, a, b) (1%nat, c, d) CharPartition_new) as [[q|[[t1 t2] q]]|]; reflexivity.
+Qed.
+
+
+Definition convst (s : State) : astate :=
+  {| a_id := State_id s; a_final := State_is_final s; a_classes := convp (State_classes s);
+     a_succ := State_successor s; a_default := State_default_successor s |}.
+Definition conva (a : Automaton) : automaton :=
+  {| num_states := Automaton_num_states a; num_final := Automaton_num_final_states a;
+     initial := Automaton_initial_state a; astates := map convst (Automaton_states a) |}.
+
 (* the binary search needs at most j - i + 1 rounds: any larger fuel gives the same answer *)
 Lemma bs_char_fuel : forall f1 f2 l x i j, (j - i < f1)%nat -> (j - i < f2)%nat ->
   bs_char f1 l x i j = bs_char f2 l x i j.
@@ -78,7 +392,7 @@ Proof.
   destruct (cs_is_before s x); apply IH; lia.
 Qed.
 
-Lemma link_class_of_char fuel p x : (length (CharPartition_list p) < fuel)%nat ->
+Lemma link_class_of_char_fuel fuel p x : (length (CharPartition_list p) < fuel)%nat ->
   option_map convc (M_CharPartition_class_of_char fuel p x) = pclass_of_char (convp p) x.
 Proof.
   intros Hf. destruct p as [l w]. autounfold with rs2v. unfold pclass_of_char, convp, plen, ivs, CharPartition_list in *.
@@ -114,7 +428,7 @@ Proof. destruct c; reflexivity. Qed.
 Lemma canon_class_of_char fuel p x : (length (CharPartition_list p) < fuel)%nat ->
   M_CharPartition_class_of_char fuel p x = option_map unconvc (pclass_of_char (convp p) x).
 Proof.
-  intros Hf. rewrite <- (link_class_of_char fuel p x Hf).
+  intros Hf. rewrite <- (link_class_of_char_fuel fuel p x Hf).
   destruct (M_CharPartition_class_of_char fuel p x) as [c|]; cbn [option_map]; [rewrite unconvc_convc|]; reflexivity.
 Qed.
 Lemma canon_len p : M_CharPartition_len p = Some (length (CharPartition_list p)).
@@ -585,4 +899,173 @@ Proof.
   unfold a_final_states, conva. cbn [astates]. clear H Hf.
   induction (Automaton_states a) as [|x l IH]; [reflexivity|].
   cbn [filter map]. unfold convst at 2. cbn [a_final]. destruct (State_is_final x); cbn [map]; rewrite IH; reflexivity.
+Qed.
+
+(* ================= char_set_next and combined_char_partition ================= *)
+Lemma bs_cover_fuel : forall f1 f2 l x i j, (j - i < f1)%nat -> (j - i < f2)%nat ->
+  bs_cover f1 l x i j = bs_cover f2 l x i j.
+Proof.
+  induction f1 as [|f1 IH]; intros f2 l x i j H1 H2; [lia|].
+  destruct f2 as [|f2]; [lia|]. cbn [bs_cover].
+  destruct (Nat.ltb (S i) j) eqn:Eij; [|reflexivity]. apply Nat.ltb_lt in Eij.
+  cbv [bind]. destruct (nth_error l (i + (j - i) / 2)) as [s|]; [|reflexivity].
+  destruct (fst s <=? x); apply IH; lia.
+Qed.
+
+Lemma link_interval_cover_fuel fuel p s : (length (CharPartition_list p) < fuel)%nat ->
+  option_map convr (M_CharPartition_interval_cover fuel p s) = pinterval_cover (convp p) (conv s).
+Proof.
+  intros Hf. pose proof (link_get p) as G. pose proof (link_start p) as S1.
+  unfold M_CharPartition_interval_cover, CharPartition_interval_cover, M_CharPartition_interval_cover_binary_search,
+    CharPartition_interval_cover_binary_search, pinterval_cover.
+  pose proof (link_bs_cover fuel (CharPartition_list p) (CharSet_start s) 0 (length (CharPartition_list p))) as H.
+  replace (plen (convp p)) with (length (CharPartition_list p)) by (destruct p; cbn; rewrite map_length; reflexivity).
+  change (ivs (convp p)) with (map conv (CharPartition_list p)).
+  change (fst (conv s)) with (CharSet_start s). change (snd (conv s)) with (CharSet_end s).
+  rewrite (bs_cover_fuel (S (length (CharPartition_list p))) fuel) by lia.
+  rewrite <- H. unfold bind at 1 3.
+  destruct (CharPartition_interval_cover_binary_search_loop1 _ _ _ _ _) as [[i|[i j]]|]; cbn [cover_res]; try reflexivity.
+  all: cbn [bind]; rewrite G; unfold bind;
+    destruct (pget (convp p) i) as [ai bi]; cbn [fst snd];
+    rewrite S1;
+    replace (i + 1)%nat with (S i) by lia;
+    destruct (CharSet_start s <? ai), (CharSet_end s <? ai), (CharSet_start s <=? bi), (CharSet_end s <=? bi),
+             (CharSet_end s <? pstart (convp p) (S i)); reflexivity.
+Qed.
+
+Lemma link_class_of_set_fuel fuel p s : (length (CharPartition_list p) < fuel)%nat ->
+  option_map convres (M_CharPartition_class_of_set fuel p s) = pclass_of_set (convp p) (conv s).
+Proof.
+  intros Hf. unfold M_CharPartition_class_of_set, CharPartition_class_of_set, pclass_of_set.
+  rewrite <- (link_interval_cover_fuel fuel p s Hf). unfold bind.
+  destruct (M_CharPartition_interval_cover _ p s) as [[i| |]|]; reflexivity.
+Qed.
+
+Definition cs_next_res (r : option (result State Error)) : option (option astate) :=
+  match r with
+  | Some (Ok t) => Some (Some (convst t))
+  | Some (Err Error_AmbiguousCharSet) => Some None
+  | _ => None
+  end.
+
+(* char_set_next: Err(AmbiguousCharSet) exactly when the set overlaps two classes of the state,
+   otherwise the successor for the class of the set; panics where the model's does *)
+Lemma link_char_set_next fuel a s set : (length (CharPartition_list (State_classes s)) < fuel)%nat ->
+  cs_next_res (M_Automaton_char_set_next fuel a s set) = a_char_set_next (conva a) (convst s) (conv set).
+Proof.
+  intros Hf. unfold M_Automaton_char_set_next, Automaton_char_set_next, a_char_set_next.
+  cbn [convst a_classes]. rewrite <- (link_class_of_set_fuel fuel _ set Hf).
+  pose proof (link_class_of_set_err fuel (State_classes s) set) as He. cbv [bind].
+  destruct (M_CharPartition_class_of_set fuel (State_classes s) set) as [[c|e]|]; cbn [option_map convres].
+  - rewrite <- link_class_next. destruct (M_Automaton_class_next a s c); reflexivity.
+  - rewrite (He e eq_refl). reflexivity.
+  - reflexivity.
+Qed.
+
+(* ---- merge with any sufficient fuel, the list fold, and the combined partition ---- *)
+Lemma merge_loop_S f p1 p2 i a b j c d res :
+  merge_loop (S f) p1 p2 i a b j c d res =
+    if negb ((b <=? MAXC) || (d <=? MAXC)) then Some res else
+    if b <? c then let '(x, y) := pget p1 i in merge_loop f p1 p2 (S i) x y j c d (ppush res a b)
+    else if d <? a then let '(x, y) := pget p2 j in merge_loop f p1 p2 i a b (S j) x y (ppush res c d)
+    else if c <? a then merge_loop f p1 p2 i a b j a d (ppush res c (a - 1))
+    else if a <? c then merge_loop f p1 p2 i c b j c d (ppush res a (c - 1))
+    else if b <? d then let '(x, y) := pget p1 i in merge_loop f p1 p2 (S i) x y j (b + 1) d (ppush res a b)
+    else if d <? b then let '(x, y) := pget p2 j in merge_loop f p1 p2 i (d + 1) b (S j) x y (ppush res c d)
+    else let '(x, y) := pget p1 i in let '(x', y') := pget p2 j in
+         merge_loop f p1 p2 (S i) x y (S j) x' y' (ppush res a b).
+Proof. reflexivity. Qed.
+Lemma merge_loop_more : forall f p1 p2 i a b j c d res r,
+  merge_loop f p1 p2 i a b j c d res = Some r -> merge_loop (S f) p1 p2 i a b j c d res = Some r.
+Proof.
+  induction f as [|f IH]; intros p1 p2 i a b j c d res r H; [discriminate|].
+  rewrite merge_loop_S in H. rewrite (merge_loop_S (S f)).
+  destruct (negb ((b <=? MAXC) || (d <=? MAXC))); [exact H|].
+  destruct (b <? c); [destruct (pget p1 i); apply IH; exact H|].
+  destruct (d <? a); [destruct (pget p2 j); apply IH; exact H|].
+  destruct (c <? a); [apply IH; exact H|].
+  destruct (a <? c); [apply IH; exact H|].
+  destruct (b <? d); [destruct (pget p1 i); apply IH; exact H|].
+  destruct (d <? b); [destruct (pget p2 j); apply IH; exact H|].
+  destruct (pget p1 i); destruct (pget p2 j); apply IH; exact H.
+Qed.
+Lemma merge_loop_ge f p1 p2 i a b j c d res r : merge_loop f p1 p2 i a b j c d res = Some r ->
+  forall f', (f <= f')%nat -> merge_loop f' p1 p2 i a b j c d res = Some r.
+Proof.
+  intros H f' Hle. induction Hle as [|f' Hle IH]; [exact H|]. apply merge_loop_more. exact IH.
+Qed.
+
+Definition gwf (p : CharPartition) : Prop := pwf (convp p).
+Lemma gwf_bounded p : gwf p -> bounded p.
+Proof.
+  intros [Hs _]. unfold bounded. apply Forall_forall. intros s Hin.
+  assert (Hv : cs_valid (conv s)).
+  { apply (sorted_valid _ Hs). unfold convp, ivs. apply in_map. exact Hin. }
+  destruct Hv as [H1 H2]. unfold conv, MAX_CHAR, MAXC in *. cbn [fst snd] in *. lia.
+Qed.
+Lemma link_merge_fuel fuel p1 p2 : gwf p1 -> gwf p2 -> (merge_fuel (convp p1) (convp p2) <= fuel)%nat ->
+  option_map convp (M_fn_merge_partitions fuel p1 p2) = Some (pmerge (convp p1) (convp p2)).
+Proof.
+  intros W1 W2 Hf. pose proof (gwf_bounded _ W1) as B1. pose proof (gwf_bounded _ W2) as B2.
+  pose proof (merge_fuel_sufficient _ _ W1 W2) as Hm. unfold pmerge_opt in Hm.
+  unfold M_fn_merge_partitions, fn_merge_partitions.
+  rewrite !link_next_interval. unfold bind at 1 2.
+  change M_CharPartition_new with (Some CharPartition_new). unfold bind at 1.
+  pose proof (pget_bounded p1 0 B1) as [G1a G1b]. pose proof (pget_bounded p2 0 B2) as [G2a G2b].
+  destruct (pget (convp p1) 0) as [a b] eqn:E1. destruct (pget (convp p2) 0) as [c d] eqn:E2. cbn [fst snd] in *.
+  pose proof (merge_loop_ge _ _ _ _ _ _ _ _ _ _ _ Hm fuel Hf) as Hm'.
+  change pnew with (convp CharPartition_new) in Hm'.
+  rewrite <- (link_merge_loop fuel p1 p2 B1 B2 CharPartition_new 1%nat a b 1%nat c d) in Hm' by assumption.
+  unfold bind.
+  destruct (fn_merge_partitions_loop1 fuel p1 p2 (1%nat, a, b) (1%nat, c, d) CharPartition_new) as [[q|[[t1 t2] q]]|];
+    cbn [merge_res] in Hm'; try discriminate; exact Hm'.
+Qed.
+
+Fixpoint list_fuel_ok (fuel : nat) (l : list CharPartition) (acc : part) : Prop :=
+  match l with
+  | [] => True
+  | p :: t => (merge_fuel acc (convp p) <= fuel)%nat /\ list_fuel_ok fuel t (pmerge acc (convp p))
+  end.
+Definition list_res (r : option (loopres CharPartition CharPartition)) : option part :=
+  match r with Some (LoopDone q) => Some (convp q) | Some (LoopReturn q) => Some (convp q) | None => None end.
+Lemma link_merge_list_loop fuel : forall l acc, gwf acc -> Forall gwf l -> list_fuel_ok fuel l (convp acc) ->
+  list_res (fn_merge_partition_list_loop1 fuel l acc) = Some (fold_left pmerge (map convp l) (convp acc)).
+Proof.
+  induction l as [|p l IH]; intros acc Hacc Hl Hok; [reflexivity|].
+  inversion Hl as [|? ? Hp Hl']; subst. destruct Hok as (Hf & Hrest).
+  cbn [fn_merge_partition_list_loop1 map fold_left].
+  pose proof (link_merge_fuel fuel acc p Hacc Hp Hf) as Hm.
+  destruct (M_fn_merge_partitions fuel acc p) as [q|]; [|discriminate Hm].
+  cbn [option_map] in Hm. injection Hm as Hm. cbn [bind]. rewrite <- Hm. apply IH.
+  - unfold gwf. rewrite Hm. apply merge_wf; assumption.
+  - exact Hl'.
+  - rewrite Hm. exact Hrest.
+Qed.
+Lemma link_merge_partition_list fuel l : Forall gwf l -> list_fuel_ok fuel l pnew ->
+  option_map convp (M_fn_merge_partition_list fuel l) = Some (pmerge_list (map convp l)).
+Proof.
+  intros Hl Hok. unfold M_fn_merge_partition_list, fn_merge_partition_list, pmerge_list.
+  change M_CharPartition_new with (Some CharPartition_new). cbn [bind].
+  pose proof (link_merge_list_loop fuel l CharPartition_new pnew_wf Hl Hok) as H.
+  change (convp CharPartition_new) with pnew in H.
+  destruct (fn_merge_partition_list_loop1 fuel l CharPartition_new) as [[q|q]|]; cbn [list_res] in H; try discriminate;
+    cbn [bind option_map]; exact H.
+Qed.
+
+Lemma map_m_some {A B} (f : A -> B) l : map_m (fun x => Some (f x)) l = Some (map f l).
+Proof. induction l as [|x l IH]; [reflexivity|]. cbn [map_m map]. rewrite IH. reflexivity. Qed.
+
+(* combined_char_partition: the fold of merge_partitions over the states' class partitions *)
+Lemma link_combined_char_partition fuel a :
+  Forall (fun s => gwf (State_classes s)) (Automaton_states a) ->
+  list_fuel_ok fuel (map State_classes (Automaton_states a)) pnew ->
+  option_map convp (M_Automaton_combined_char_partition fuel a) = Some (combined_partition (conva a)).
+Proof.
+  intros Hw Hok. unfold M_Automaton_combined_char_partition, Automaton_combined_char_partition, M_Automaton_states_fn, Automaton_states_fn.
+  cbn [bind]. rewrite (map_m_some State_classes). cbn [bind].
+  assert (Hw' : Forall gwf (map State_classes (Automaton_states a))) by (rewrite Forall_map; exact Hw).
+  rewrite (link_merge_partition_list fuel _ Hw' Hok). f_equal.
+  unfold pmerge_list, combined_partition, conva. cbn [astates]. rewrite map_map.
+  clear Hw Hok Hw'. generalize pnew as acc. induction (Automaton_states a) as [|s l IH]; intros acc; [reflexivity|].
+  cbn [map fold_left]. unfold convst at 2. cbn [a_classes]. apply IH.
 Qed.
